@@ -449,8 +449,11 @@ end Avx2_i16
 namespace Avx2_i32
 /-- `Avx2_i32.sum_to_value`: halves combined lane-wise, then `(g0 ⊕ g1) ⊕ (g2 ⊕ g3)` -/
 theorem sum_to_value (E : Env) (r : BitVec 256) :
-    (Avx2_i32.inst E).sum_to_value r = pure (hfoldHalfQ (· + ·) (xlanes 32 r)) :=
-  congrArg pure (avx2_foldQ (· + ·) r)
+    (Avx2_i32.inst E).sum_to_value r = pure (hfoldHalfQ (· + ·) (xlanes 32 r)) := by
+  show _root_.Cfavml.Avx2_i32.sum_to_value E r = _
+  unfold _root_.Cfavml.Avx2_i32.sum_to_value
+  simp (config := {decide := true}) only [arrGet, unpackLanes, if_true, pure_bind]
+  exact congrArg pure (avx2_foldQ (· + ·) r)
 /-- … which, `((· + ·), (0 : BitVec 32))` being a commutative monoid, is the fold of all 8 lanes -/
 theorem hsum_eq (f : Nat → BitVec 32) : hfoldHalfQ (· + ·) f = sumR (· + ·) (0 : BitVec 32) f 8 :=
   hfoldHalfQ_eq_sumR (add_monoid 32) f
@@ -460,8 +463,11 @@ theorem sumFold (E : Env) : FoldFaithful 8 (xlanes 32) (sintSpec 32).add (hfoldH
   foldFaithful_of (C13X86.Avx2_i32.add E) _ _ _ rfl (sum_to_value E)
 /-- `Avx2_i32.max_to_value`: halves combined lane-wise, then `(g0 ⊕ g1) ⊕ (g2 ⊕ g3)` -/
 theorem max_to_value (E : Env) (r : BitVec 256) :
-    (Avx2_i32.inst E).max_to_value r = pure (hfoldHalfQ IntPrim.smax (xlanes 32 r)) :=
-  congrArg pure (avx2_foldQ IntPrim.smax r)
+    (Avx2_i32.inst E).max_to_value r = pure (hfoldHalfQ IntPrim.smax (xlanes 32 r)) := by
+  show _root_.Cfavml.Avx2_i32.max_to_value E r = _
+  unfold _root_.Cfavml.Avx2_i32.max_to_value
+  simp (config := {decide := true}) only [arrGet, unpackLanes, if_true, pure_bind]
+  exact congrArg pure (avx2_foldQ IntPrim.smax r)
 /-- … which, `(IntPrim.smax, (BitVec.intMin 32))` being a commutative monoid, is the fold of all 8 lanes -/
 theorem hmax_eq (f : Nat → BitVec 32) : hfoldHalfQ IntPrim.smax f = sumR IntPrim.smax (BitVec.intMin 32) f 8 :=
   hfoldHalfQ_eq_sumR (smax_monoid (by decide : 0 < 32)) f
@@ -471,8 +477,11 @@ theorem maxFold (E : Env) : FoldFaithful 8 (xlanes 32) (sintSpec 32).cmpMax (hfo
   foldFaithful_of (C13X86.Avx2_i32.max E) _ _ _ rfl (max_to_value E)
 /-- `Avx2_i32.min_to_value`: halves combined lane-wise, then `(g0 ⊕ g1) ⊕ (g2 ⊕ g3)` -/
 theorem min_to_value (E : Env) (r : BitVec 256) :
-    (Avx2_i32.inst E).min_to_value r = pure (hfoldHalfQ IntPrim.smin (xlanes 32 r)) :=
-  congrArg pure (avx2_foldQ IntPrim.smin r)
+    (Avx2_i32.inst E).min_to_value r = pure (hfoldHalfQ IntPrim.smin (xlanes 32 r)) := by
+  show _root_.Cfavml.Avx2_i32.min_to_value E r = _
+  unfold _root_.Cfavml.Avx2_i32.min_to_value
+  simp (config := {decide := true}) only [arrGet, unpackLanes, if_true, pure_bind]
+  exact congrArg pure (avx2_foldQ IntPrim.smin r)
 /-- … which, `(IntPrim.smin, (BitVec.intMax 32))` being a commutative monoid, is the fold of all 8 lanes -/
 theorem hmin_eq (f : Nat → BitVec 32) : hfoldHalfQ IntPrim.smin f = sumR IntPrim.smin (BitVec.intMax 32) f 8 :=
   hfoldHalfQ_eq_sumR (smin_monoid (by decide : 0 < 32)) f
@@ -485,8 +494,11 @@ end Avx2_i32
 namespace Avx2_i64
 /-- `Avx2_i64.sum_to_value`: halves combined lane-wise, then `g0 ⊕ g1` -/
 theorem sum_to_value (E : Env) (r : BitVec 256) :
-    (Avx2_i64.inst E).sum_to_value r = pure (hfoldHalfD (· + ·) (xlanes 64 r)) :=
-  congrArg pure (avx2_foldD (· + ·) r)
+    (Avx2_i64.inst E).sum_to_value r = pure (hfoldHalfD (· + ·) (xlanes 64 r)) := by
+  show _root_.Cfavml.Avx2_i64.sum_to_value E r = _
+  unfold _root_.Cfavml.Avx2_i64.sum_to_value
+  simp (config := {decide := true}) only [arrGet, unpackLanes, if_true, pure_bind]
+  exact congrArg pure (avx2_foldD (· + ·) r)
 /-- … which, `((· + ·), (0 : BitVec 64))` being a commutative monoid, is the fold of all 4 lanes -/
 theorem hsum_eq (f : Nat → BitVec 64) : hfoldHalfD (· + ·) f = sumR (· + ·) (0 : BitVec 64) f 4 :=
   hfoldHalfD_eq_sumR (add_monoid 64) f
@@ -496,8 +508,11 @@ theorem sumFold (E : Env) : FoldFaithful 4 (xlanes 64) (sintSpec 64).add (hfoldH
   foldFaithful_of (C13X86.Avx2_i64.add E) _ _ _ rfl (sum_to_value E)
 /-- `Avx2_i64.max_to_value`: halves combined with `cmpgt_epi64` + `blendv_epi8`, then the scalar combine -/
 theorem max_to_value (E : Env) (r : BitVec 256) :
-    (Avx2_i64.inst E).max_to_value r = pure (hfoldHalfD IntPrim.smax (xlanes 64 r)) :=
-  congrArg pure (avx2_smaxD r)
+    (Avx2_i64.inst E).max_to_value r = pure (hfoldHalfD IntPrim.smax (xlanes 64 r)) := by
+  show _root_.Cfavml.Avx2_i64.max_to_value E r = _
+  unfold _root_.Cfavml.Avx2_i64.max_to_value
+  simp (config := {decide := true}) only [arrGet, unpackLanes, if_true, pure_bind]
+  exact congrArg pure (avx2_smaxD r)
 /-- … which, `(IntPrim.smax, (BitVec.intMin 64))` being a commutative monoid, is the fold of all 4 lanes -/
 theorem hmax_eq (f : Nat → BitVec 64) : hfoldHalfD IntPrim.smax f = sumR IntPrim.smax (BitVec.intMin 64) f 4 :=
   hfoldHalfD_eq_sumR (smax_monoid (by decide : 0 < 64)) f
@@ -507,8 +522,11 @@ theorem maxFold (E : Env) : FoldFaithful 4 (xlanes 64) (sintSpec 64).cmpMax (hfo
   foldFaithful_of (C13X86Hard.Avx2_i64.max E) _ _ _ rfl (max_to_value E)
 /-- `Avx2_i64.min_to_value`: halves combined with `cmpgt_epi64` + `blendv_epi8`, then the scalar combine -/
 theorem min_to_value (E : Env) (r : BitVec 256) :
-    (Avx2_i64.inst E).min_to_value r = pure (hfoldHalfD IntPrim.smin (xlanes 64 r)) :=
-  congrArg pure (avx2_sminD r)
+    (Avx2_i64.inst E).min_to_value r = pure (hfoldHalfD IntPrim.smin (xlanes 64 r)) := by
+  show _root_.Cfavml.Avx2_i64.min_to_value E r = _
+  unfold _root_.Cfavml.Avx2_i64.min_to_value
+  simp (config := {decide := true}) only [arrGet, unpackLanes, if_true, pure_bind]
+  exact congrArg pure (avx2_sminD r)
 /-- … which, `(IntPrim.smin, (BitVec.intMax 64))` being a commutative monoid, is the fold of all 4 lanes -/
 theorem hmin_eq (f : Nat → BitVec 64) : hfoldHalfD IntPrim.smin f = sumR IntPrim.smin (BitVec.intMax 64) f 4 :=
   hfoldHalfD_eq_sumR (smin_monoid (by decide : 0 < 64)) f
@@ -593,8 +611,11 @@ end Avx2_u16
 namespace Avx2_u32
 /-- `Avx2_u32.sum_to_value`: halves combined lane-wise, then `(g0 ⊕ g1) ⊕ (g2 ⊕ g3)` -/
 theorem sum_to_value (E : Env) (r : BitVec 256) :
-    (Avx2_u32.inst E).sum_to_value r = pure (hfoldHalfQ (· + ·) (xlanes 32 r)) :=
-  congrArg pure (avx2_foldQ (· + ·) r)
+    (Avx2_u32.inst E).sum_to_value r = pure (hfoldHalfQ (· + ·) (xlanes 32 r)) := by
+  show _root_.Cfavml.Avx2_u32.sum_to_value E r = _
+  unfold _root_.Cfavml.Avx2_u32.sum_to_value
+  simp (config := {decide := true}) only [arrGet, unpackLanes, if_true, pure_bind]
+  exact congrArg pure (avx2_foldQ (· + ·) r)
 /-- … which, `((· + ·), (0 : BitVec 32))` being a commutative monoid, is the fold of all 8 lanes -/
 theorem hsum_eq (f : Nat → BitVec 32) : hfoldHalfQ (· + ·) f = sumR (· + ·) (0 : BitVec 32) f 8 :=
   hfoldHalfQ_eq_sumR (add_monoid 32) f
@@ -604,8 +625,11 @@ theorem sumFold (E : Env) : FoldFaithful 8 (xlanes 32) (uintSpec 32).add (hfoldH
   foldFaithful_of (C13X86.Avx2_u32.add E) _ _ _ rfl (sum_to_value E)
 /-- `Avx2_u32.max_to_value`: halves combined lane-wise, then `(g0 ⊕ g1) ⊕ (g2 ⊕ g3)` -/
 theorem max_to_value (E : Env) (r : BitVec 256) :
-    (Avx2_u32.inst E).max_to_value r = pure (hfoldHalfQ IntPrim.umax (xlanes 32 r)) :=
-  congrArg pure (avx2_foldQ IntPrim.umax r)
+    (Avx2_u32.inst E).max_to_value r = pure (hfoldHalfQ IntPrim.umax (xlanes 32 r)) := by
+  show _root_.Cfavml.Avx2_u32.max_to_value E r = _
+  unfold _root_.Cfavml.Avx2_u32.max_to_value
+  simp (config := {decide := true}) only [arrGet, unpackLanes, if_true, pure_bind]
+  exact congrArg pure (avx2_foldQ IntPrim.umax r)
 /-- … which, `(IntPrim.umax, (0 : BitVec 32))` being a commutative monoid, is the fold of all 8 lanes -/
 theorem hmax_eq (f : Nat → BitVec 32) : hfoldHalfQ IntPrim.umax f = sumR IntPrim.umax (0 : BitVec 32) f 8 :=
   hfoldHalfQ_eq_sumR (umax_monoid 32) f
@@ -615,8 +639,11 @@ theorem maxFold (E : Env) : FoldFaithful 8 (xlanes 32) (uintSpec 32).cmpMax (hfo
   foldFaithful_of (C13X86.Avx2_u32.max E) _ _ _ rfl (max_to_value E)
 /-- `Avx2_u32.min_to_value`: halves combined lane-wise, then `(g0 ⊕ g1) ⊕ (g2 ⊕ g3)` -/
 theorem min_to_value (E : Env) (r : BitVec 256) :
-    (Avx2_u32.inst E).min_to_value r = pure (hfoldHalfQ IntPrim.umin (xlanes 32 r)) :=
-  congrArg pure (avx2_foldQ IntPrim.umin r)
+    (Avx2_u32.inst E).min_to_value r = pure (hfoldHalfQ IntPrim.umin (xlanes 32 r)) := by
+  show _root_.Cfavml.Avx2_u32.min_to_value E r = _
+  unfold _root_.Cfavml.Avx2_u32.min_to_value
+  simp (config := {decide := true}) only [arrGet, unpackLanes, if_true, pure_bind]
+  exact congrArg pure (avx2_foldQ IntPrim.umin r)
 /-- … which, `(IntPrim.umin, (BitVec.allOnes 32))` being a commutative monoid, is the fold of all 8 lanes -/
 theorem hmin_eq (f : Nat → BitVec 32) : hfoldHalfQ IntPrim.umin f = sumR IntPrim.umin (BitVec.allOnes 32) f 8 :=
   hfoldHalfQ_eq_sumR (umin_monoid 32) f
@@ -629,8 +656,11 @@ end Avx2_u32
 namespace Avx2_u64
 /-- `Avx2_u64.sum_to_value`: halves combined lane-wise, then `g0 ⊕ g1` -/
 theorem sum_to_value (E : Env) (r : BitVec 256) :
-    (Avx2_u64.inst E).sum_to_value r = pure (hfoldHalfD (· + ·) (xlanes 64 r)) :=
-  congrArg pure (avx2_foldD (· + ·) r)
+    (Avx2_u64.inst E).sum_to_value r = pure (hfoldHalfD (· + ·) (xlanes 64 r)) := by
+  show _root_.Cfavml.Avx2_u64.sum_to_value E r = _
+  unfold _root_.Cfavml.Avx2_u64.sum_to_value
+  simp (config := {decide := true}) only [arrGet, unpackLanes, if_true, pure_bind]
+  exact congrArg pure (avx2_foldD (· + ·) r)
 /-- … which, `((· + ·), (0 : BitVec 64))` being a commutative monoid, is the fold of all 4 lanes -/
 theorem hsum_eq (f : Nat → BitVec 64) : hfoldHalfD (· + ·) f = sumR (· + ·) (0 : BitVec 64) f 4 :=
   hfoldHalfD_eq_sumR (add_monoid 64) f
@@ -640,8 +670,11 @@ theorem sumFold (E : Env) : FoldFaithful 4 (xlanes 64) (uintSpec 64).add (hfoldH
   foldFaithful_of (C13X86.Avx2_u64.add E) _ _ _ rfl (sum_to_value E)
 /-- `Avx2_u64.max_to_value`: halves combined with `cmpgt_epi64` + `blendv_epi8`, then the scalar combine -/
 theorem max_to_value (E : Env) (r : BitVec 256) :
-    (Avx2_u64.inst E).max_to_value r = pure (hfoldHalfD IntPrim.umax (xlanes 64 r)) :=
-  congrArg pure (avx2_umaxD r)
+    (Avx2_u64.inst E).max_to_value r = pure (hfoldHalfD IntPrim.umax (xlanes 64 r)) := by
+  show _root_.Cfavml.Avx2_u64.max_to_value E r = _
+  unfold _root_.Cfavml.Avx2_u64.max_to_value
+  simp (config := {decide := true}) only [arrGet, unpackLanes, if_true, pure_bind]
+  exact congrArg pure (avx2_umaxD r)
 /-- … which, `(IntPrim.umax, (0 : BitVec 64))` being a commutative monoid, is the fold of all 4 lanes -/
 theorem hmax_eq (f : Nat → BitVec 64) : hfoldHalfD IntPrim.umax f = sumR IntPrim.umax (0 : BitVec 64) f 4 :=
   hfoldHalfD_eq_sumR (umax_monoid 64) f
@@ -651,8 +684,11 @@ theorem maxFold (E : Env) : FoldFaithful 4 (xlanes 64) (uintSpec 64).cmpMax (hfo
   foldFaithful_of (C13X86Hard.Avx2_u64.max E) _ _ _ rfl (max_to_value E)
 /-- `Avx2_u64.min_to_value`: halves combined with `cmpgt_epi64` + `blendv_epi8`, then the scalar combine -/
 theorem min_to_value (E : Env) (r : BitVec 256) :
-    (Avx2_u64.inst E).min_to_value r = pure (hfoldHalfD IntPrim.umin (xlanes 64 r)) :=
-  congrArg pure (avx2_uminD r)
+    (Avx2_u64.inst E).min_to_value r = pure (hfoldHalfD IntPrim.umin (xlanes 64 r)) := by
+  show _root_.Cfavml.Avx2_u64.min_to_value E r = _
+  unfold _root_.Cfavml.Avx2_u64.min_to_value
+  simp (config := {decide := true}) only [arrGet, unpackLanes, if_true, pure_bind]
+  exact congrArg pure (avx2_uminD r)
 /-- … which, `(IntPrim.umin, (BitVec.allOnes 64))` being a commutative monoid, is the fold of all 4 lanes -/
 theorem hmin_eq (f : Nat → BitVec 64) : hfoldHalfD IntPrim.umin f = sumR IntPrim.umin (BitVec.allOnes 64) f 4 :=
   hfoldHalfD_eq_sumR (umin_monoid 64) f
@@ -665,8 +701,13 @@ end Avx2_u64
 namespace Avx512_i8
 /-- `Avx512_i8.sum_to_value`: 256-bit halves combined, then the AVX2 fold -/
 theorem sum_to_value (E : Env) (hfuel : 5 ≤ E.fuel) (r : BitVec 512) :
-    (Avx512_i8.inst E).sum_to_value r = pure (hfoldHalf512 (· + ·) (0 : BitVec 8) 16 4 (xlanes 8 r)) :=
-  avx512_fold4 E (by decide) 4 (by decide) (by decide) (· + ·) (0 : BitVec 8) E.fuel (by omega) _ (shuffle_1032 E) r
+    (Avx512_i8.inst E).sum_to_value r = pure (hfoldHalf512 (· + ·) (0 : BitVec 8) 16 4 (xlanes 8 r)) := by
+  show _root_.Cfavml.Avx512_i8.sum_to_value E r = _
+  unfold _root_.Cfavml.Avx512_i8.sum_to_value
+  have := avx512_fold4 E (by decide) 4 (by decide) (by decide) (· + ·) (0 : BitVec 8) E.fuel (by omega) _ (shuffle_1032 E) r
+  simp only [_root_.Cfavml.Avx2_i8.add, _root_.Cfavml.Avx2_i8.max, _root_.Cfavml.Avx2_i8.min, pure_bind]
+  simp only [bind_pure] at this
+  exact this
 /-- … which, `((· + ·), (0 : BitVec 8))` being a commutative monoid, is the fold of all 64 lanes -/
 theorem hsum_eq (f : Nat → BitVec 8) : hfoldHalf512 (· + ·) (0 : BitVec 8) 16 4 f = sumR (· + ·) (0 : BitVec 8) f 64 :=
   hfoldHalf512_eq_sumR (add_monoid 8) 4 f
@@ -676,8 +717,13 @@ theorem sumFold (E : Env) (hfuel : 5 ≤ E.fuel) : FoldFaithful 64 (xlanes 8) (s
   foldFaithful_of (C13X86.Avx512_i8.add E) _ _ _ rfl (sum_to_value E hfuel)
 /-- `Avx512_i8.max_to_value`: 256-bit halves combined, then the AVX2 fold -/
 theorem max_to_value (E : Env) (hfuel : 5 ≤ E.fuel) (r : BitVec 512) :
-    (Avx512_i8.inst E).max_to_value r = pure (hfoldHalf512 IntPrim.smax (BitVec.intMin 8) 16 4 (xlanes 8 r)) :=
-  avx512_fold4 E (by decide) 4 (by decide) (by decide) IntPrim.smax (BitVec.intMin 8) E.fuel (by omega) _ (shuffle_1032 E) r
+    (Avx512_i8.inst E).max_to_value r = pure (hfoldHalf512 IntPrim.smax (BitVec.intMin 8) 16 4 (xlanes 8 r)) := by
+  show _root_.Cfavml.Avx512_i8.max_to_value E r = _
+  unfold _root_.Cfavml.Avx512_i8.max_to_value
+  have := avx512_fold4 E (by decide) 4 (by decide) (by decide) IntPrim.smax (BitVec.intMin 8) E.fuel (by omega) _ (shuffle_1032 E) r
+  simp only [_root_.Cfavml.Avx2_i8.add, _root_.Cfavml.Avx2_i8.max, _root_.Cfavml.Avx2_i8.min, pure_bind]
+  simp only [bind_pure] at this
+  exact this
 /-- … which, `(IntPrim.smax, (BitVec.intMin 8))` being a commutative monoid, is the fold of all 64 lanes -/
 theorem hmax_eq (f : Nat → BitVec 8) : hfoldHalf512 IntPrim.smax (BitVec.intMin 8) 16 4 f = sumR IntPrim.smax (BitVec.intMin 8) f 64 :=
   hfoldHalf512_eq_sumR (smax_monoid (by decide : 0 < 8)) 4 f
@@ -687,8 +733,13 @@ theorem maxFold (E : Env) (hfuel : 5 ≤ E.fuel) : FoldFaithful 64 (xlanes 8) (s
   foldFaithful_of (C13X86.Avx512_i8.max E) _ _ _ rfl (max_to_value E hfuel)
 /-- `Avx512_i8.min_to_value`: 256-bit halves combined, then the AVX2 fold -/
 theorem min_to_value (E : Env) (hfuel : 5 ≤ E.fuel) (r : BitVec 512) :
-    (Avx512_i8.inst E).min_to_value r = pure (hfoldHalf512 IntPrim.smin (BitVec.intMax 8) 16 4 (xlanes 8 r)) :=
-  avx512_fold4 E (by decide) 4 (by decide) (by decide) IntPrim.smin (BitVec.intMax 8) E.fuel (by omega) _ (shuffle_1032 E) r
+    (Avx512_i8.inst E).min_to_value r = pure (hfoldHalf512 IntPrim.smin (BitVec.intMax 8) 16 4 (xlanes 8 r)) := by
+  show _root_.Cfavml.Avx512_i8.min_to_value E r = _
+  unfold _root_.Cfavml.Avx512_i8.min_to_value
+  have := avx512_fold4 E (by decide) 4 (by decide) (by decide) IntPrim.smin (BitVec.intMax 8) E.fuel (by omega) _ (shuffle_1032 E) r
+  simp only [_root_.Cfavml.Avx2_i8.add, _root_.Cfavml.Avx2_i8.max, _root_.Cfavml.Avx2_i8.min, pure_bind]
+  simp only [bind_pure] at this
+  exact this
 /-- … which, `(IntPrim.smin, (BitVec.intMax 8))` being a commutative monoid, is the fold of all 64 lanes -/
 theorem hmin_eq (f : Nat → BitVec 8) : hfoldHalf512 IntPrim.smin (BitVec.intMax 8) 16 4 f = sumR IntPrim.smin (BitVec.intMax 8) f 64 :=
   hfoldHalf512_eq_sumR (smin_monoid (by decide : 0 < 8)) 4 f
@@ -701,8 +752,13 @@ end Avx512_i8
 namespace Avx512_i16
 /-- `Avx512_i16.sum_to_value`: 256-bit halves combined, then the AVX2 fold -/
 theorem sum_to_value (E : Env) (hfuel : 3 ≤ E.fuel) (r : BitVec 512) :
-    (Avx512_i16.inst E).sum_to_value r = pure (hfoldHalf512 (· + ·) (0 : BitVec 16) 8 2 (xlanes 16 r)) :=
-  avx512_fold4 E (by decide) 2 (by decide) (by decide) (· + ·) (0 : BitVec 16) E.fuel (by omega) _ (shuffle_1032 E) r
+    (Avx512_i16.inst E).sum_to_value r = pure (hfoldHalf512 (· + ·) (0 : BitVec 16) 8 2 (xlanes 16 r)) := by
+  show _root_.Cfavml.Avx512_i16.sum_to_value E r = _
+  unfold _root_.Cfavml.Avx512_i16.sum_to_value
+  have := avx512_fold4 E (by decide) 2 (by decide) (by decide) (· + ·) (0 : BitVec 16) E.fuel (by omega) _ (shuffle_1032 E) r
+  simp only [_root_.Cfavml.Avx2_i16.add, _root_.Cfavml.Avx2_i16.max, _root_.Cfavml.Avx2_i16.min, pure_bind]
+  simp only [bind_pure] at this
+  exact this
 /-- … which, `((· + ·), (0 : BitVec 16))` being a commutative monoid, is the fold of all 32 lanes -/
 theorem hsum_eq (f : Nat → BitVec 16) : hfoldHalf512 (· + ·) (0 : BitVec 16) 8 2 f = sumR (· + ·) (0 : BitVec 16) f 32 :=
   hfoldHalf512_eq_sumR (add_monoid 16) 2 f
@@ -712,8 +768,13 @@ theorem sumFold (E : Env) (hfuel : 3 ≤ E.fuel) : FoldFaithful 32 (xlanes 16) (
   foldFaithful_of (C13X86.Avx512_i16.add E) _ _ _ rfl (sum_to_value E hfuel)
 /-- `Avx512_i16.max_to_value`: 256-bit halves combined, then the AVX2 fold -/
 theorem max_to_value (E : Env) (hfuel : 3 ≤ E.fuel) (r : BitVec 512) :
-    (Avx512_i16.inst E).max_to_value r = pure (hfoldHalf512 IntPrim.smax (BitVec.intMin 16) 8 2 (xlanes 16 r)) :=
-  avx512_fold4 E (by decide) 2 (by decide) (by decide) IntPrim.smax (BitVec.intMin 16) E.fuel (by omega) _ (shuffle_1032 E) r
+    (Avx512_i16.inst E).max_to_value r = pure (hfoldHalf512 IntPrim.smax (BitVec.intMin 16) 8 2 (xlanes 16 r)) := by
+  show _root_.Cfavml.Avx512_i16.max_to_value E r = _
+  unfold _root_.Cfavml.Avx512_i16.max_to_value
+  have := avx512_fold4 E (by decide) 2 (by decide) (by decide) IntPrim.smax (BitVec.intMin 16) E.fuel (by omega) _ (shuffle_1032 E) r
+  simp only [_root_.Cfavml.Avx2_i16.add, _root_.Cfavml.Avx2_i16.max, _root_.Cfavml.Avx2_i16.min, pure_bind]
+  simp only [bind_pure] at this
+  exact this
 /-- … which, `(IntPrim.smax, (BitVec.intMin 16))` being a commutative monoid, is the fold of all 32 lanes -/
 theorem hmax_eq (f : Nat → BitVec 16) : hfoldHalf512 IntPrim.smax (BitVec.intMin 16) 8 2 f = sumR IntPrim.smax (BitVec.intMin 16) f 32 :=
   hfoldHalf512_eq_sumR (smax_monoid (by decide : 0 < 16)) 2 f
@@ -723,8 +784,13 @@ theorem maxFold (E : Env) (hfuel : 3 ≤ E.fuel) : FoldFaithful 32 (xlanes 16) (
   foldFaithful_of (C13X86.Avx512_i16.max E) _ _ _ rfl (max_to_value E hfuel)
 /-- `Avx512_i16.min_to_value`: 256-bit halves combined, then the AVX2 fold -/
 theorem min_to_value (E : Env) (hfuel : 3 ≤ E.fuel) (r : BitVec 512) :
-    (Avx512_i16.inst E).min_to_value r = pure (hfoldHalf512 IntPrim.smin (BitVec.intMax 16) 8 2 (xlanes 16 r)) :=
-  avx512_fold4 E (by decide) 2 (by decide) (by decide) IntPrim.smin (BitVec.intMax 16) E.fuel (by omega) _ (shuffle_1032 E) r
+    (Avx512_i16.inst E).min_to_value r = pure (hfoldHalf512 IntPrim.smin (BitVec.intMax 16) 8 2 (xlanes 16 r)) := by
+  show _root_.Cfavml.Avx512_i16.min_to_value E r = _
+  unfold _root_.Cfavml.Avx512_i16.min_to_value
+  have := avx512_fold4 E (by decide) 2 (by decide) (by decide) IntPrim.smin (BitVec.intMax 16) E.fuel (by omega) _ (shuffle_1032 E) r
+  simp only [_root_.Cfavml.Avx2_i16.add, _root_.Cfavml.Avx2_i16.max, _root_.Cfavml.Avx2_i16.min, pure_bind]
+  simp only [bind_pure] at this
+  exact this
 /-- … which, `(IntPrim.smin, (BitVec.intMax 16))` being a commutative monoid, is the fold of all 32 lanes -/
 theorem hmin_eq (f : Nat → BitVec 16) : hfoldHalf512 IntPrim.smin (BitVec.intMax 16) 8 2 f = sumR IntPrim.smin (BitVec.intMax 16) f 32 :=
   hfoldHalf512_eq_sumR (smin_monoid (by decide : 0 < 16)) 2 f
@@ -822,8 +888,13 @@ theorem sumFold (E : Env) (hfuel : 5 ≤ E.fuel) : FoldFaithful 64 (xlanes 8) (u
   foldFaithful_of (C13X86.Avx512_u8.add E) _ _ _ rfl (sum_to_value E hfuel)
 /-- `Avx512_u8.max_to_value`: 256-bit halves combined, then the AVX2 fold -/
 theorem max_to_value (E : Env) (hfuel : 5 ≤ E.fuel) (r : BitVec 512) :
-    (Avx512_u8.inst E).max_to_value r = pure (hfoldHalf512 IntPrim.umax (0 : BitVec 8) 16 4 (xlanes 8 r)) :=
-  avx512_fold4 E (by decide) 4 (by decide) (by decide) IntPrim.umax (0 : BitVec 8) E.fuel (by omega) _ (shuffle_1032 E) r
+    (Avx512_u8.inst E).max_to_value r = pure (hfoldHalf512 IntPrim.umax (0 : BitVec 8) 16 4 (xlanes 8 r)) := by
+  show _root_.Cfavml.Avx512_u8.max_to_value E r = _
+  unfold _root_.Cfavml.Avx512_u8.max_to_value
+  have := avx512_fold4 E (by decide) 4 (by decide) (by decide) IntPrim.umax (0 : BitVec 8) E.fuel (by omega) _ (shuffle_1032 E) r
+  simp only [_root_.Cfavml.Avx2_u8.add, _root_.Cfavml.Avx2_u8.max, _root_.Cfavml.Avx2_u8.min, pure_bind]
+  simp only [bind_pure] at this
+  exact this
 /-- … which, `(IntPrim.umax, (0 : BitVec 8))` being a commutative monoid, is the fold of all 64 lanes -/
 theorem hmax_eq (f : Nat → BitVec 8) : hfoldHalf512 IntPrim.umax (0 : BitVec 8) 16 4 f = sumR IntPrim.umax (0 : BitVec 8) f 64 :=
   hfoldHalf512_eq_sumR (umax_monoid 8) 4 f
@@ -833,8 +904,13 @@ theorem maxFold (E : Env) (hfuel : 5 ≤ E.fuel) : FoldFaithful 64 (xlanes 8) (u
   foldFaithful_of (C13X86.Avx512_u8.max E) _ _ _ rfl (max_to_value E hfuel)
 /-- `Avx512_u8.min_to_value`: 256-bit halves combined, then the AVX2 fold -/
 theorem min_to_value (E : Env) (hfuel : 5 ≤ E.fuel) (r : BitVec 512) :
-    (Avx512_u8.inst E).min_to_value r = pure (hfoldHalf512 IntPrim.umin (BitVec.allOnes 8) 16 4 (xlanes 8 r)) :=
-  avx512_fold4 E (by decide) 4 (by decide) (by decide) IntPrim.umin (BitVec.allOnes 8) E.fuel (by omega) _ (shuffle_1032 E) r
+    (Avx512_u8.inst E).min_to_value r = pure (hfoldHalf512 IntPrim.umin (BitVec.allOnes 8) 16 4 (xlanes 8 r)) := by
+  show _root_.Cfavml.Avx512_u8.min_to_value E r = _
+  unfold _root_.Cfavml.Avx512_u8.min_to_value
+  have := avx512_fold4 E (by decide) 4 (by decide) (by decide) IntPrim.umin (BitVec.allOnes 8) E.fuel (by omega) _ (shuffle_1032 E) r
+  simp only [_root_.Cfavml.Avx2_u8.add, _root_.Cfavml.Avx2_u8.max, _root_.Cfavml.Avx2_u8.min, pure_bind]
+  simp only [bind_pure] at this
+  exact this
 /-- … which, `(IntPrim.umin, (BitVec.allOnes 8))` being a commutative monoid, is the fold of all 64 lanes -/
 theorem hmin_eq (f : Nat → BitVec 8) : hfoldHalf512 IntPrim.umin (BitVec.allOnes 8) 16 4 f = sumR IntPrim.umin (BitVec.allOnes 8) f 64 :=
   hfoldHalf512_eq_sumR (umin_monoid 8) 4 f
@@ -860,8 +936,13 @@ theorem sumFold (E : Env) (hfuel : 3 ≤ E.fuel) : FoldFaithful 32 (xlanes 16) (
   foldFaithful_of (C13X86.Avx512_u16.add E) _ _ _ rfl (sum_to_value E hfuel)
 /-- `Avx512_u16.max_to_value`: 256-bit halves combined, then the AVX2 fold -/
 theorem max_to_value (E : Env) (hfuel : 3 ≤ E.fuel) (r : BitVec 512) :
-    (Avx512_u16.inst E).max_to_value r = pure (hfoldHalf512 IntPrim.umax (0 : BitVec 16) 8 2 (xlanes 16 r)) :=
-  avx512_fold4 E (by decide) 2 (by decide) (by decide) IntPrim.umax (0 : BitVec 16) E.fuel (by omega) _ (shuffle_1032 E) r
+    (Avx512_u16.inst E).max_to_value r = pure (hfoldHalf512 IntPrim.umax (0 : BitVec 16) 8 2 (xlanes 16 r)) := by
+  show _root_.Cfavml.Avx512_u16.max_to_value E r = _
+  unfold _root_.Cfavml.Avx512_u16.max_to_value
+  have := avx512_fold4 E (by decide) 2 (by decide) (by decide) IntPrim.umax (0 : BitVec 16) E.fuel (by omega) _ (shuffle_1032 E) r
+  simp only [_root_.Cfavml.Avx2_u16.add, _root_.Cfavml.Avx2_u16.max, _root_.Cfavml.Avx2_u16.min, pure_bind]
+  simp only [bind_pure] at this
+  exact this
 /-- … which, `(IntPrim.umax, (0 : BitVec 16))` being a commutative monoid, is the fold of all 32 lanes -/
 theorem hmax_eq (f : Nat → BitVec 16) : hfoldHalf512 IntPrim.umax (0 : BitVec 16) 8 2 f = sumR IntPrim.umax (0 : BitVec 16) f 32 :=
   hfoldHalf512_eq_sumR (umax_monoid 16) 2 f
@@ -871,8 +952,13 @@ theorem maxFold (E : Env) (hfuel : 3 ≤ E.fuel) : FoldFaithful 32 (xlanes 16) (
   foldFaithful_of (C13X86.Avx512_u16.max E) _ _ _ rfl (max_to_value E hfuel)
 /-- `Avx512_u16.min_to_value`: 256-bit halves combined, then the AVX2 fold -/
 theorem min_to_value (E : Env) (hfuel : 3 ≤ E.fuel) (r : BitVec 512) :
-    (Avx512_u16.inst E).min_to_value r = pure (hfoldHalf512 IntPrim.umin (BitVec.allOnes 16) 8 2 (xlanes 16 r)) :=
-  avx512_fold4 E (by decide) 2 (by decide) (by decide) IntPrim.umin (BitVec.allOnes 16) E.fuel (by omega) _ (shuffle_1032 E) r
+    (Avx512_u16.inst E).min_to_value r = pure (hfoldHalf512 IntPrim.umin (BitVec.allOnes 16) 8 2 (xlanes 16 r)) := by
+  show _root_.Cfavml.Avx512_u16.min_to_value E r = _
+  unfold _root_.Cfavml.Avx512_u16.min_to_value
+  have := avx512_fold4 E (by decide) 2 (by decide) (by decide) IntPrim.umin (BitVec.allOnes 16) E.fuel (by omega) _ (shuffle_1032 E) r
+  simp only [_root_.Cfavml.Avx2_u16.add, _root_.Cfavml.Avx2_u16.max, _root_.Cfavml.Avx2_u16.min, pure_bind]
+  simp only [bind_pure] at this
+  exact this
 /-- … which, `(IntPrim.umin, (BitVec.allOnes 16))` being a commutative monoid, is the fold of all 32 lanes -/
 theorem hmin_eq (f : Nat → BitVec 16) : hfoldHalf512 IntPrim.umin (BitVec.allOnes 16) 8 2 f = sumR IntPrim.umin (BitVec.allOnes 16) f 32 :=
   hfoldHalf512_eq_sumR (umin_monoid 16) 2 f
